@@ -105,8 +105,27 @@ def extend_path_unit(res):
     fn, _ = ex.find_method("KernelDG", "_extend_path")
     ex.index_loops(fn)
     lines = z3.Function("line_no", I, I)
-    ins = Schema("inse", ["InstructionForm"], {"line_number": ("int",)})
+    # a root is ANY line of the slice: lines without operands (x86 'cltq', 'pushfq' carry hidden operands) or without a
+    # mnemonic are searched like the others (the sequential search does the same) - the fields exist so that a filter on them
+    # is executed, not reported as "unsupported"
+    has_ops, has_mn = z3.Function("line_has_operands", I, z3.BoolSort()), z3.Function("line_has_mnemonic", I, z3.BoolSort())
+
+    class Operands:
+        def __init__(self, t):
+            self.t = t
+
+        def sym_truthy(self, ex_):
+            return ex_.branch(has_ops(self.t))
+
+        def sym_len(self, ex_):
+            n = z3.FreshInt("n_operands")
+            ex_.assume(z3.And(n >= 0, (n > 0) == has_ops(self.t)))
+            return SNum(n, True)
+
+    ins = Schema("inse", ["InstructionForm"], {"line_number": ("int",), "operands": ("custom", None), "mnemonic": ("optstr",)})
     ins.fn["line_number"] = lines
+    ins.fn["operands"] = lambda ex_, ref: Operands(ref.t)
+    ins.fn["mnemonic"] = (has_mn, z3.Function("mnemonic_id", I, I))
     L, off = z3.Ints("L offset")
     calls = []
 
